@@ -113,10 +113,11 @@ def _v1_rail_flow(side, i, r):
         return ""
     if r["kind"] == "rewrite_assign":
         return 'define subflow %s rail %d\n  $%s = execute sim_rewrite(rail="%s")\n' % (side, i, var, rail)
-    # check (allow / block / rewrite through context_updates)
-    return ('define subflow {side} rail {i}\n  $allowed = execute sim_rail(rail="{rail}")\n  if not $allowed\n'
+    # check (allow / block / rewrite through context_updates); with text_param the checked text is handed over as an explicit
+    # action parameter (`text=$bot_message`, as the shipped sensitive-data rails do) instead of being read from the context
+    return ('define subflow {side} rail {i}\n  $allowed = execute sim_rail(rail="{rail}"{tp})\n  if not $allowed\n'
             '    if $config.enable_rails_exceptions\n      create event {exc}(message="{msg}")\n    else\n      bot refuse {rail}\n    stop\n\n'
-            'define bot refuse {rail}\n  "{ref}"\n').format(side=side, i=i, rail=rail, exc=exc, msg=exc_message(rail), ref=refusal(rail))
+            'define bot refuse {rail}\n  "{ref}"\n').format(side=side, i=i, rail=rail, exc=exc, msg=exc_message(rail), ref=refusal(rail), tp=(", text=$%s" % var) if r.get("text_param") else "")
 
 
 def build_v2(spec):
